@@ -7,6 +7,7 @@ pub mod dp;
 pub mod gap;
 pub mod handover;
 pub mod ring;
+pub mod scan;
 pub mod total;
 
 use crate::world::World;
